@@ -41,7 +41,7 @@ func (G *gen) census() error {
 	if dump := os.Getenv("C12_CENSUS_DUMP"); dump != "" { // maintenance aid: current rows for derefs_classify.py
 		var sb strings.Builder
 		for _, row := range cs.Rows {
-			fmt.Fprintf(&sb, "%s\t%s\t%s\t%d\t%d\n", row.Fn, row.Field, row.Root, row.Count, row.Guards)
+			fmt.Fprintf(&sb, "%s\t%s\t%s\t%d\t%d\n", row.Fn, row.Field, row.File, row.Unguarded, row.Guarded)
 		}
 		os.WriteFile(dump, []byte(sb.String()), 0644)
 	}
@@ -52,13 +52,19 @@ func (G *gen) census() error {
 		gate = "1"
 	}
 	G.c.Line(fmt.Sprintf("cap %s %s", cs.Cap, gate), "ok")
-	for _, row := range cs.Rows {
-		cls, want, wantG := "unclassified", 0, 0
-		if e, ok := exp[[3]string{row.Fn, row.Field, row.Root}]; ok {
-			cls, want, wantG = e.Class, e.Count, e.Guards
+	for _, cr := range classify(cs.Rows, exp) {
+		row := cr.Row
+		fn, cls, want := row.Fn, "unclassified", 0
+		if cr.Exp != nil {
+			fn, cls, want = cr.Exp.Fn, cr.Exp.Class, cr.Exp.Unguarded // a moved site is reported under the name the list (and the model) knows
+		} else if row.Unguarded == 0 {
+			cls = "nil-checked" // every dereference of the pair is dominated by a nil test: safe by construction
 		}
-		G.c.Line(fmt.Sprintf("site %s %s %s %d %d %d %d %s", row.Fn, row.Field, row.Root, row.Count, want, row.Guards, wantG, cls), "ok")
+		G.c.Line(fmt.Sprintf("site %s %s %d %d %s", fn, row.Field, row.Unguarded, want, cls), "ok")
 		G.c.Hit("census:" + cls)
+		if row.MovedFrom != "" {
+			G.c.Hit("census:moved-within-file")
+		}
 	}
 	G.c.Line(fmt.Sprintf("census-end %d", len(cs.Rows)), "ok")
 	fields := map[string][]string{}
